@@ -625,4 +625,299 @@ theorem rstep_allstuck {r : Relay} (h0 : Good0 r) (h : AllStuck r) (i : RIn) (ho
   | nil => simp
   | cons f rest ih => simp [ih]
 
+/-! ### Histories -/
+
+/-- Admissible input of a relay in state `r`: a map pass visits every output buffer (in any
+order, repetitions allowed); direct writes are SETTINGS / PING / GOAWAY, never WINDOW_UPDATE
+(those are only produced as credit, by `RIn.credit`). -/
+def OkStep (r : Relay) (i : RIn) : Prop := OkIn r i ∧ ∀ s n, i ≠ .ctl (.windowUpdate s n)
+
+def OkRun : Relay → List RIn → Prop
+  | _, [] => True
+  | r, i :: is => OkStep r i ∧ OkRun (rstep r i) is
+
+theorem run_invariant {r : Relay} (is : List RIn) (h0 : Good0 r) (h1 : AllStuck r) (hok : OkRun r is) :
+    Good0 (run r is) ∧ AllStuck (run r is) := by
+  induction is generalizing r with
+  | nil => exact ⟨h0, h1⟩
+  | cons i is ih =>
+    exact ih (rstep_good0 h0 i) (rstep_allstuck h0 h1 i hok.1.1) hok.2
+
+theorem allstuck_init : AllStuck ({} : Relay) := by intro t; simp [StuckAt, Stuck]
+
+/-- Frames a relay input adds to the output queues. -/
+def acceptedOf (r : Relay) : RIn → List QFrame
+  | .data sid payload es => mkData sid es (dataChunks r.maxFrame payload.length payload)
+  | .header sid fields es prio encoded =>
+    [.headers sid es prio r.nextStamp fields
+      (splitIntoChunks (r.maxFrame - (if prio.isZero then 0 else 5)) r.maxFrame encoded)]
+  | .push sid promised fields encoded =>
+    [.push sid promised r.nextStamp fields (splitIntoChunks (r.maxFrame - 4) r.maxFrame encoded)]
+  | .priority sid p => [.priority sid p]
+  | .rst sid code => [.rst sid code]
+  | _ => []
+
+theorem rstep_accepted (r : Relay) (i : RIn) : (rstep r i).accepted = r.accepted ++ acceptedOf r i := by
+  cases i with
+  | credit sid flow => simp only [rstep, acceptedOf]; split <;> simp
+  | windowUpdate sid inc order =>
+    simp only [rstep, acceptedOf, emitStream_accepted]
+    have : ∀ r1 : Relay, (addWin (getOB r1 sid) sid inc).accepted = r1.accepted := by intro r1; simp [addWin]
+    rw [this]; split <;> simp
+  | _ => simp [rstep, acceptedOf]
+
+/-- Executable form of the admissibility hypothesis. -/
+def okStepB (r : Relay) : RIn → Bool
+  | .windowUpdate 0 _ order => r.keys.all (fun t => order.contains t)
+  | .initWin _ order => r.keys.all (fun t => order.contains t)
+  | .ctl (.windowUpdate _ _) => false
+  | _ => true
+
+def okRunB : Relay → List RIn → Bool
+  | _, [] => true
+  | r, i :: is => okStepB r i && okRunB (rstep r i) is
+
+theorem okStepB_sound (r : Relay) (i : RIn) (h : okStepB r i = true) : OkStep r i := by
+  cases i with
+  | windowUpdate sid inc order =>
+    cases sid with
+    | zero =>
+      refine ⟨?_, by intro s n; simp⟩
+      simpa [okStepB, OkIn] using h
+    | succ k => exact ⟨by simp [OkIn], by intro s n; simp⟩
+  | initWin v order =>
+    refine ⟨?_, by intro s n; simp⟩
+    simpa [okStepB, OkIn] using h
+  | ctl c =>
+    cases c with
+    | windowUpdate s n => simp [okStepB] at h
+    | _ => exact ⟨by simp [OkIn], by intro s n; simp⟩
+  | _ => exact ⟨by simp [OkIn], by intro s n; simp⟩
+
+theorem okRunB_sound (r : Relay) (is : List RIn) (h : okRunB r is = true) : OkRun r is := by
+  induction is generalizing r with
+  | nil => trivial
+  | cons i is ih =>
+    simp only [okRunB, Bool.and_eq_true] at h
+    exact ⟨okStepB_sound r i h.1, ih _ h.2⟩
+
+
+/-! ### HPACK encode order -/
+
+/-- Encoder sequence numbers of the header blocks in a list of frames. -/
+def blocks (l : List QFrame) : List Nat := l.filterMap QFrame.stamp?
+
+@[simp] theorem blocks_nil : blocks [] = [] := rfl
+@[simp] theorem blocks_append (a b : List QFrame) : blocks (a ++ b) = blocks a ++ blocks b := by simp [blocks]
+
+/-- All queued header blocks sit on one stream and, after the emitted ones, count up to `n`. -/
+def Jn (r : Relay) (n : Nat) : Prop :=
+  ∃ s0, (∀ t, t ≠ s0 → blocks (r.ob t).q = []) ∧ blocks r.emitted ++ blocks (r.ob s0).q = List.range n
+
+theorem Jn_congr {r r' : Relay} {n : Nat} (hq : ∀ t, (r'.ob t).q = (r.ob t).q) (he : r'.emitted = r.emitted)
+    (h : Jn r n) : Jn r' n := by
+  obtain ⟨s0, h1, h2⟩ := h
+  exact ⟨s0, fun t ht => by rw [hq]; exact h1 t ht, by rw [he, hq]; exact h2⟩
+
+theorem emitStream_Jn {r : Relay} {n : Nat} (h : Jn r n) (s : Nat) : Jn (emitStream r s) n := by
+  have hs := emit_spec r.connWin (r.ob s).win (r.ob s).q
+  generalize hres : emit r.connWin (r.ob s).win (r.ob s).q = res at hs
+  obtain ⟨conn', w', q', out⟩ := res
+  simp only at hs
+  obtain ⟨hcat, -, -, -, -, -, -⟩ := hs
+  have hb : blocks out ++ blocks q' = blocks (r.ob s).q := by rw [← blocks_append, hcat]
+  obtain ⟨s0, h1, h2⟩ := h
+  refine ⟨s0, ?_, ?_⟩
+  · intro t ht
+    by_cases hts : t = s
+    · subst hts
+      have := h1 t ht
+      rw [this] at hb
+      simp at hb
+      simp [emitStream, hres, hb.2]
+    · simp [emitStream, hres, setOB_other _ _ _ hts]; exact h1 t ht
+  · by_cases hs0 : s = s0
+    · subst hs0
+      simp [emitStream, hres]
+      rw [hb]; exact h2
+    · have := h1 s hs0
+      rw [this] at hb
+      simp at hb
+      have hne : s0 ≠ s := fun e => hs0 e.symm
+      simp [emitStream, hres, setOB_other _ _ _ hne, hb.1]
+      exact h2
+
+theorem sendQueued_Jn {r : Relay} {n : Nat} (h : Jn r n) (order : List Nat) : Jn (sendQueued r order) n := by
+  unfold sendQueued
+  induction order generalizing r with
+  | nil => exact h
+  | cons s rest ih => exact ih (emitStream_Jn h s)
+
+theorem getOB_q {r : Relay} (hg : Good0 r) (s t : Nat) : ((getOB r s).ob t).q = (r.ob t).q := by
+  unfold getOB
+  split
+  · rfl
+  · rename_i hs
+    by_cases hts : t = s
+    · subst hts; simp [(hg.nokey t hs).1]
+    · simp [setOB_other _ _ _ hts]
+
+theorem getOB_emitted (r : Relay) (s : Nat) : (getOB r s).emitted = r.emitted := by
+  unfold getOB; split <;> rfl
+
+theorem enqueue_Jn_plain {r : Relay} {n : Nat} (hg : Good0 r) (h : Jn r n) (f : QFrame) (hf : f.stamp? = none) :
+    Jn (enqueue r f) n := by
+  apply emitStream_Jn
+  have h1 : Jn (getOB r f.sid) n := Jn_congr (getOB_q hg f.sid) (getOB_emitted r f.sid) h
+  obtain ⟨s0, h1, h2⟩ := h1
+  have hbf : blocks [f] = [] := by simp [blocks, hf]
+  refine ⟨s0, ?_, ?_⟩
+  · intro t ht
+    by_cases hts : t = f.sid
+    · subst hts; simp [push, hbf]; exact h1 _ ht
+    · simp [push, setOB_other _ _ _ hts]; exact h1 t ht
+  · by_cases hts : s0 = f.sid
+    · subst hts; simp [push, hbf]; exact h2
+    · simp [push, setOB_other _ _ _ hts]; exact h2
+
+theorem foldl_enqueue_Jn_plain {r : Relay} {n : Nat} (hg : Good0 r) (h : Jn r n) (fs : List QFrame)
+    (hf : ∀ f ∈ fs, f.stamp? = none) : Jn (fs.foldl enqueue r) n := by
+  induction fs generalizing r with
+  | nil => exact h
+  | cons f rest ih =>
+    exact ih (enqueue_good0 hg f) (enqueue_Jn_plain hg h f (hf f (by simp))) (fun g hgm => hf g (by simp [hgm]))
+
+theorem enqueue_Jn_stamped {r : Relay} {n : Nat} (hg : Good0 r) (h : Jn r n) (f : QFrame) (hf : f.stamp? = some n)
+    (hsafe : ∀ t, t ≠ f.sid → blocks (r.ob t).q = []) : Jn (enqueue r f) (n + 1) := by
+  apply emitStream_Jn
+  have h1 : Jn (getOB r f.sid) n := Jn_congr (getOB_q hg f.sid) (getOB_emitted r f.sid) h
+  have hsafe' : ∀ t, t ≠ f.sid → blocks ((getOB r f.sid).ob t).q = [] := by
+    intro t ht; rw [getOB_q hg]; exact hsafe t ht
+  obtain ⟨s0, h1, h2⟩ := h1
+  have hbf : blocks [f] = [n] := by simp [blocks, hf]
+  refine ⟨f.sid, ?_, ?_⟩
+  · intro t ht
+    simp [push, setOB_other _ _ _ ht]; exact hsafe' t ht
+  · have hbase : blocks (getOB r f.sid).emitted ++ blocks ((getOB r f.sid).ob f.sid).q = List.range n := by
+      by_cases hts : s0 = f.sid
+      · subst hts; exact h2
+      · rw [hsafe' s0 hts] at h2
+        rw [h1 f.sid (fun e => hts e.symm)]
+        exact h2
+    simp [push, hbf]
+    rw [← List.append_assoc, hbase, List.range_succ]
+
+theorem mkData_stamp (sid : Nat) (es : Bool) (cs : List Bytes) : ∀ f ∈ mkData sid es cs, f.stamp? = none := by
+  induction cs with
+  | nil => simp [mkData]
+  | cons c rest ih =>
+    cases rest with
+    | nil => simp [mkData, QFrame.stamp?]
+    | cons c2 rest2 =>
+      intro f hf
+      simp only [mkData, List.mem_cons] at hf
+      rcases hf with hf | hf
+      · subst hf; rfl
+      · exact ih f (by simpa [mkData] using hf)
+
+/-- The F08b class is excluded: a header block is HPACK-encoded only when no block encoded
+earlier is still queued on another stream. -/
+def SafeIn (r : Relay) : RIn → Prop
+  | .header sid _ _ _ _ => ∀ t ∈ r.keys, t ≠ sid → blocks (r.ob t).q = []
+  | .push sid _ _ _ => ∀ t ∈ r.keys, t ≠ sid → blocks (r.ob t).q = []
+  | _ => True
+
+theorem rstep_Jn {r : Relay} (hg : Good0 r) (h : Jn r r.nextStamp) (i : RIn) (hs : SafeIn r i) :
+    Jn (rstep r i) (rstep r i).nextStamp := by
+  have safeAll : ∀ sid, (∀ t ∈ r.keys, t ≠ sid → blocks (r.ob t).q = []) → ∀ t, t ≠ sid → blocks (r.ob t).q = [] := by
+    intro sid hk t ht
+    by_cases htk : t ∈ r.keys
+    · exact hk t htk ht
+    · simp [(hg.nokey t htk).1]
+  cases i with
+  | data sid payload es =>
+    simp only [rstep, foldl_enqueue_nextStamp, getOB_nextStamp]
+    exact foldl_enqueue_Jn_plain (getOB_good0 hg sid) (Jn_congr (getOB_q hg sid) (getOB_emitted r sid) h) _ (mkData_stamp _ _ _)
+  | header sid fields es prio encoded =>
+    simp only [rstep, enqueue_nextStamp]
+    exact enqueue_Jn_stamped (r := { r with nextStamp := r.nextStamp + 1 }) ⟨hg.1, hg.2, hg.3, hg.4, hg.5, hg.6, hg.7⟩
+      (Jn_congr (fun _ => rfl) rfl h) _ rfl (safeAll sid hs)
+  | push sid promised fields encoded =>
+    simp only [rstep, enqueue_nextStamp]
+    exact enqueue_Jn_stamped (r := { r with nextStamp := r.nextStamp + 1 }) ⟨hg.1, hg.2, hg.3, hg.4, hg.5, hg.6, hg.7⟩
+      (Jn_congr (fun _ => rfl) rfl h) _ rfl (safeAll sid hs)
+  | priority sid p => simp only [rstep, enqueue_nextStamp]; exact enqueue_Jn_plain hg h _ rfl
+  | rst sid code => simp only [rstep, enqueue_nextStamp]; exact enqueue_Jn_plain hg h _ rfl
+  | ctl c => exact Jn_congr (fun _ => rfl) rfl h
+  | credit sid flow =>
+    simp only [rstep]
+    split
+    · exact h
+    · exact Jn_congr (fun _ => rfl) rfl h
+  | windowUpdate sid inc order =>
+    simp only [rstep, emitStream_nextStamp]
+    apply emitStream_Jn
+    have key : ∀ r1 : Relay, Good0 r1 → Jn r1 r.nextStamp → Jn (addWin (getOB r1 sid) sid inc) r.nextStamp := by
+      intro r1 hg1 h1
+      refine Jn_congr ?_ ?_ (Jn_congr (getOB_q hg1 sid) (getOB_emitted r1 sid) h1)
+      · intro t
+        by_cases hts : t = sid
+        · subst hts; simp [addWin]
+        · simp [addWin, setOB_other _ _ _ hts]
+      · rfl
+    have hn : ∀ r1 : Relay, (addWin (getOB r1 sid) sid inc).nextStamp = r1.nextStamp := by intro r1; simp [addWin]
+    rw [hn]
+    split
+    · simp only [sendQueued_nextStamp]
+      apply key
+      · apply sendQueued_good0
+        refine ⟨hg.1, hg.2, hg.3, hg.4, ?_, ?_, hg.7⟩
+        · have := hg.ledgerC; simp; omega
+        · have := hg.connNonneg; simp; omega
+      · exact sendQueued_Jn (Jn_congr (r := r) (r' := { r with connWin := r.connWin + inc, wuConn := r.wuConn + inc }) (fun _ => rfl) rfl h) order
+    · exact key r hg h
+  | initWin v order =>
+    simp only [rstep, sendQueued_nextStamp]
+    apply sendQueued_Jn
+    refine Jn_congr (r := r) ?_ rfl h
+    intro t
+    simp only
+    split <;> rfl
+  | maxFrame v => exact Jn_congr (fun _ => rfl) rfl h
+
+theorem prefix_of_range {a b : List Nat} {n : Nat} (h : a ++ b = List.range n) : a = List.range a.length := by
+  have hlen : a.length ≤ n := by
+    have := congrArg List.length h
+    simp at this; omega
+  have : a = (List.range n).take a.length := by rw [← h]; simp
+  rw [this, List.take_range]
+  simp [Nat.min_eq_left hlen]
+
+/-! ### CONTINUATION reassembly -/
+
+theorem dispatchAll_append (d : DState) (a b : List Frame) :
+    dispatchAll d (a ++ b) =
+      ((dispatchAll (dispatchAll d a).1 b).1, (dispatchAll d a).2 ++ (dispatchAll (dispatchAll d a).1 b).2) := by
+  induction a generalizing d with
+  | nil => simp [dispatchAll]
+  | cons f a ih => simp [dispatchAll, ih, List.append_assoc]
+
+/-- What `continuationState.complete` calls once the block is whole. -/
+def completeCall (c : Cont) (sid : Nat) (block : Bytes) : Call :=
+  match c with
+  | .hdr prio es => .header sid block es prio
+  | .push promised => .pushPromise sid promised block
+  | .none => .nilContinuation
+
+theorem dispatchAll_conts (buf : Bytes) (c : Cont) (sid : Nat) (mid : List Bytes) (last : Bytes) :
+    dispatchAll ⟨buf, c⟩ (mid.map (Frame.continuation sid false) ++ [.continuation sid true last]) =
+      (⟨buf ++ mid.flatten ++ last, c⟩, [completeCall c sid (buf ++ mid.flatten ++ last)]) := by
+  induction mid generalizing buf with
+  | nil => cases c <;> simp [dispatchAll, dispatch, completeCall]
+  | cons m rest ih =>
+    simp only [List.map_cons, List.cons_append, dispatchAll, dispatch]
+    simp only [Bool.false_eq_true, if_false]
+    rw [ih]
+    simp [List.append_assoc]
+
 end Martian.H2Relay
